@@ -7,6 +7,7 @@ COG = 'photutils/profiles/curve_of_growth.py::CurveOfGrowth'
 def register(reg):
     register_radial(reg)
     register_photometry(reg)
+    register_mask(reg)
     reg.record('CurveOfGrowth', {'radius': ('seq', 'real'), 'profile': ('seq', 'real')})
 
     # retained prefix = the maximal strictly increasing prefix of the profile, so that the two
@@ -186,4 +187,35 @@ def register_photometry(reg):
                       'area = aperture.area_overlap(self.data, mask=None,'),
                      ('flux, fluxerr = [0.0], [0.0]', 'flux, fluxerr = [1.0], [0.0]')]
             if meth == 'subpixel' else [],
+        ))
+
+
+def register_mask(reg):
+    """C19 "of the unmasked data": the pixels a profile ignores are exactly the masked ones plus
+    those where the data or the error is not finite (that the caller's mask is not written is a
+    frame obligation of the effects engine)."""
+    PB = 'photutils/profiles/core.py::ProfileBase'
+    img = ('arr', 2, 'real', 'nonfinite', 'nonempty')
+    box = '(0, data.shape[0]), (0, data.shape[1])'
+    for tag, espec, mspec in (('error+mask', img, ('arr', 2, 'bool')), ('mask', ('const', None), ('arr', 2, 'bool')),
+                              ('error', img, ('const', None)), ('neither', ('const', None), ('const', None))):
+        terms = ['not isfinite_at(data, j, i)']
+        req = []
+        if espec == img:
+            terms.append('not isfinite_at(error, j, i)')
+            req.append('error.shape == data.shape')
+        if mspec != ('const', None):
+            terms.append('mask[j, i]')
+            req.append('mask.shape == data.shape')
+        reg.add(Contract(
+            target=f'{PB}._compute_mask', props=['C19', 'C10'], kind='method', tag=tag,
+            params={'self': ('record', 'ProfileBase', {}), 'data': img, 'error': espec, 'mask': mspec},
+            requires=req,
+            ensures=[('shape', 'result.shape == data.shape'),
+                     ('ignored-iff-masked-or-not-finite-in-data-or-error',
+                      f'forall(lambda j, i: iff(result[j, i], {" or ".join(terms)}), {box})')],
+            mutants=[('badmask = ~np.isfinite(data)', 'badmask = np.isfinite(data)')]
+            + ([('badmask |= ~np.isfinite(error)', 'badmask &= ~np.isfinite(error)')] if espec == img else [])
+            + ([('mask = mask | badmask', 'mask = mask & badmask'),
+                ('badmask &= ~mask', 'badmask |= ~mask')] if mspec != ('const', None) else []),
         ))
